@@ -196,7 +196,7 @@ def run_harness(h, cfg, timeout_s, mem_gb, use_cache=True, extra_args=None, log_
         env = base_env(cfg)
         common = [
             "cargo", "kani", "--output-format", "terse", "--target-dir", slot.path,
-            "-Z", "stubbing", "--harness", h["full"], "--exact",
+            "-Z", "stubbing", "--harness", h["full"], "--exact", "--no-assertion-reach-checks",
         ] + CONFIGS[cfg]["args"] + (extra_args or [])
         # 1. regenerate the encoding (goto binary) from the current tree
         cg = subprocess.run(common + ["--only-codegen"], cwd=CRATE, env=env, capture_output=True, text=True)
@@ -255,7 +255,7 @@ def concrete_playback(h, cfg, timeout_s, mem_gb):
         env = base_env(cfg)
         common = [
             "cargo", "kani", "--output-format", "terse", "--target-dir", slot.path,
-            "-Z", "stubbing", "--harness", h["full"], "--exact", "-Z", "concrete-playback",
+            "-Z", "stubbing", "--harness", h["full"], "--exact", "--no-assertion-reach-checks", "-Z", "concrete-playback",
             "--concrete-playback=print",
         ] + CONFIGS[cfg]["args"]
         cmd = "ulimit -v %d; exec timeout -k 10 %d %s" % (
